@@ -4,7 +4,7 @@
    of per-prior log-prior functions, r the resample value, I any implementation traits. *)
 From Coq Require Import ZArith QArith List Bool.
 From Coq Require Import Floats.PrimFloat.
-From PAFC04 Require Import Gen Model Proofs Witness Wiring.
+From PAFC04 Require Import PyStmt Gen Model Proofs Witness Wiring GenModel ProofsGen WitnessGen.
 Import ListNotations.
 
 (* what "successfully evaluated" means: right length, every entry within its prior's limits, every
@@ -208,6 +208,73 @@ Theorem C04_wiring_pyswarms : existsb (fun e => w_pyswarms (w_file e)) wiring = 
   forallb (fun e => negb (w_pyswarms (w_file e)) || PrimFloat.eqb (w_delivered e) infinity) wiring = true.
 Proof. exact (conj wiring_covers_anchored pyswarms_delivered). Qed.
 
+(* ====== the source itself ======
+   Gen.Fitness_call / Gen.FitnessPySwarms_call are the STATEMENT-LEVEL translations of the bodies of Fitness.__call__ and
+   FitnessPySwarms.__call__ (try/except FitException, early returns, if/elif/else on the configuration flags, np.isnan
+   tests, history appends, the particle loop), regenerated from /repo on every run; GenModel instantiates their named
+   Section variables at the abstract inputs of the model (gen_fitness_call, gen_ps_call, gen_step, run_gen).
+   They EQUAL the hand-written model for all inputs: every theorem above speaks about what the source says, and
+   a source edit that changes the control flow breaks these proofs (or makes the translator refuse). *)
+Theorem C04_source_call : forall (V : Type) (N : num V) (m : @model V) (L : @lik V) (lp : @lprior V) (fl : flags) (r : V)
+    (st : @state V) (b : nat),
+  gen_step N m L lp fl r st (OCall b) = step N current_impl m L lp fl r st (OCall b).
+Proof. exact @Gen_call_eq_model. Qed.
+
+Theorem C04_source_call_value : forall (V : Type) (N : num V) (m : @model V) (L : @lik V) (lp : @lprior V) (fl : flags) (r : V)
+    (h : list (list V)) (g : hists (@pentry V) V) (b : nat),
+  res_of (fst (gen_fitness_call N m L lp fl r h (PRef b) g)) = call_value N m L lp fl r (buf h b).
+Proof. exact @Gen_call_value. Qed.
+
+(* nanv: what np.nan is instantiated with; the except clause of the pyswarms loop goes through `np.isnan(np.nan)` *)
+Theorem C04_source_pyswarms_call : forall (V : Type) (N : num V) (m : @model V) (L : @lik V) (lp : @lprior V) (fl : flags) (r : V)
+    (nanv : V) (h : list (list V)) (objs : list (@pentry V)) (hl : list (@pentry V * V)),
+  n_isnan N nanv = true ->
+  (let '(out, g) := gen_ps_call N m L lp fl r nanv h objs (hists_of hl) in (hist_of g, res_list_of out)) =
+  ps_batch N current_impl m L lp fl r hl (map (deref_obj h) objs) [].
+Proof. exact @Gen_ps_call_eq_model. Qed.
+
+Theorem C04_source_run : forall (V : Type) (N : num V) (m : @model V) (L : @lik V) (lp : @lprior V) (fl : flags) (r : V)
+    (nanv : V) (ps : bool) (st : @state V) (ops : list (@op V)),
+  n_isnan N nanv = true ->
+  run_gen N m L lp fl r nanv ps st ops = run N current_impl m L lp fl r ps st ops.
+Proof. exact @run_gen_eq. Qed.
+
+(* the property text on the function read off Fitness.__call__: eight flag combinations, resample value, no escape *)
+Theorem C04_source_fom : forall (V : Type) (N : num V) (m : @model V) (L : @lik V) (lp : @lprior V) (fl : flags) (r : V)
+    (h : list (list V)) (g : hists (@pentry V) V) (b : nat),
+  length (buf h b) = prior_count m ->
+  (forall ll bx, evaluate N m L (buf h b) = EvOk ll bx ->
+     fst (gen_fitness_call N m L lp fl r h (PRef b) g) =
+     Ret (match fl_like fl, fl_chi2 fl with
+          | true, false => f_like N ll
+          | false, false => f_post N ll (pysum N (lp_list lp 0 (buf h b)))
+          | true, true => f_chi2 N (f_like N ll)
+          | false, true => f_chi2 N (f_post N ll (pysum N (lp_list lp 0 (buf h b))))
+          end)) /\
+  ((limits_gate N m (buf h b) = false \/
+    forallb (assert_ok N (buf h b)) (m_asserts m) = false \/
+    L (instance N m (buf h b)) = LRaise \/
+    (exists ll bx, L (instance N m (buf h b)) = LRet ll bx /\ n_isnan N ll = true)) ->
+   fst (gen_fitness_call N m L lp fl r h (PRef b) g) = Ret r) /\
+  (exists v, fst (gen_fitness_call N m L lp fl r h (PRef b) g) = Ret v).
+Proof. exact @Gen_call_fom. Qed.
+
+(* ... and the histories / outputs of whole runs computed by the translated source *)
+Theorem C04_source_history : forall (V : Type) (N : num V) (m : @model V) (L : @lik V) (lp : @lprior V) (fl : flags) (r : V)
+    (nanv : V) (h : list (list V)) (ops : list (@op V)),
+  n_isnan N nanv = true ->
+  view (fst (run_gen N m L lp fl r nanv false (fresh h) ops)) = spec_history N m L fl (trace false h ops) /\
+  snd (run_gen N m L lp fl r nanv false (fresh h) ops) = spec_outputs N m L lp fl r h ops.
+Proof. exact @Gen_run_history. Qed.
+
+Theorem C04_source_pyswarms_run : forall (V : Type) (N : num V) (m : @model V) (L : @lik V) (lp : @lprior V) (fl : flags) (r : V)
+    (nanv : V) (h : list (list V)) (ops : list (@op V)),
+  n_isnan N nanv = true ->
+  Forall (fun v => length v = prior_count m) (trace true h ops) ->
+  view (fst (run_gen N m L lp fl r nanv true (fresh h) ops)) = spec_history_ps N m L lp r fl (trace true h ops) /\
+  snd (run_gen N m L lp fl r nanv true (fresh h) ops) = spec_outputs_ps N m L lp r h ops.
+Proof. exact @Gen_run_pyswarms. Qed.
+
 Print Assumptions C04_fom.
 Print Assumptions C04_fom_meaning.
 Print Assumptions C04_history.
@@ -215,3 +282,5 @@ Print Assumptions C04_history_current.
 Print Assumptions C04_pyswarms_run.
 Print Assumptions C04_wiring_resample_partial.
 Print Assumptions C04_constructor.
+Print Assumptions C04_source_call.
+Print Assumptions C04_source_run.
